@@ -1193,7 +1193,9 @@ def rules(rep, facts):
     # R1 pairs the lexical atoms of a function with the ABNF classes by their position in the function; R10 compares the language of the function with its
     # ABNF rule exactly.  Where R10 finds the two equal, the atoms are the right ones wherever they are written (moved into a shared helper, reordered), and a
     # position that no longer pairs up is not a finding.
-    equal = {o['key'].split('=')[0] for o in rep.rules.get('C01/R10', {}).get('obligations', []) if o['ok'] and '=' in o['key']}
+    # (only where the comparison was exact: a function whose language R10 could only bound from above — a look-ahead, a value filter — may still commit to
+    # a prefix and refuse what the grammar allows, and there a new or moved atom stays a finding)
+    equal = {o['key'].split('=')[0] for o in rep.rules.get('C01/R10', {}).get('obligations', []) if o['ok'] and '=' in o['key'] and 'exact' in (o.get('detail') or '')}
     moot = [v for v in rep.violations if v['rule'] == 'C01/R1' and any(v['key'].split('|', 1)[-1].startswith(fn + '|') or f'`numbers::{fn.split("::")[-1]}`' in v['detail'] and fn.startswith('numbers::')
                                                                        or f'`{fn}`' in v['detail'] for fn in equal)]
     if moot:
